@@ -744,6 +744,19 @@ Proof. intros Hwf Hnd Hcl. destruct (rep_final tm objs tidx Hwf Hnd Hcl) as [R [
     + intros [g [Hg ->]]. destruct (C g Hg) as [m [Hm Ha]]. apply in_map_iff. exists m. split; [|auto].
       destruct (S m Hm) as [Hd _]. apply assign_list_agrees; auto. Qed.
 
+Lemma nodup_b_sound l : nodup_b l = true -> NoDup l.
+Proof. induction l as [|b l IH]; simpl; [constructor|]. rewrite andb_true_iff, negb_true_iff.
+  intros [H1 H2]. constructor; [|auto]. intros Hin. unfold bmem in H1.
+  assert (existsb (block_eqb b) l = true).
+  { apply existsb_exists. exists b. split; [auto|apply block_eqb_eq; reflexivity]. }
+  congruence. Qed.
+Lemma wf_objs_b_sound objs : wf_objs_b objs = true -> wf_objs objs.
+Proof. unfold wf_objs_b. rewrite forallb_forall. intros H ix tb Hin. specialize (H _ Hin). simpl in H.
+  rewrite !andb_true_iff, negb_true_iff in H. destruct H as [[H1 H2] H3]. split; [|split].
+  - apply nodup_b_sound; auto.
+  - intros bl Hbl. rewrite forallb_forall in H2. apply Nat.eqb_eq. apply H2; auto.
+  - destruct ix; [discriminate|discriminate]. Qed.
+
 (* ---------- the code as it is, under side conditions ---------- *)
 Lemma term_maps_false_true tm objs o : term_maps false tm objs = Ok o -> term_maps true tm objs = Ok o.
 Proof. revert o; induction objs as [|[ix [tb|]] r IH]; intros o H; simpl in *; [auto| |auto].
